@@ -197,6 +197,107 @@ def writer_matrix1(tools, work, rep, ev, tier, nxs, tag):
     return 2
 
 
+def pax_fields_stage(tools, work, rep, ev, tier, cfg):
+    """spec/PaxFields.tla: the record kinds of one local PAX header (uid twice, gid, mtime, path, size, SCHILY / LIBARCHIVE xattrs with
+    url-encoded key and padded / unpadded base64, ignored keys) in every order of <= 3 (4) records; each emitted header in front of
+    a file entry, followed by a second plain entry that must stay untouched."""
+    import base64
+    MR = 3 if tier == "quick" else 4
+    C = {"MaxRecs": MR, "Emit": False, "SizeIgnored": False, "LibarchiveRaw": False}
+    write_cfg(cfg, spec="Spec", constants=C, invariants=["Faithful", "IgnoredKeysIgnored"], deadlock=False)
+    r = run_tlc("PaxFields", cfg, workers=4, timeout=600)
+    ev.tlc(r, "PaxFields records<=%d" % MR)
+    if not r["ok"]:
+        print("MODEL-FAILURE: PaxFields violates %s" % r["violated"])
+        return None
+    for dev in ("SizeIgnored", "LibarchiveRaw"):
+        write_cfg(cfg, spec="Spec", constants=dict(C, **{dev: True}), invariants=["Faithful"], deadlock=False)
+        r = run_tlc("PaxFields", cfg, workers=4, timeout=600)
+        ev.tlc(r, "dev PaxFields " + dev)
+        if not r["violated"]:
+            print("SELF-CHECK-FAILED: PaxFields deviation %s without counterexample" % dev)
+            return None
+    write_cfg(cfg, spec="Spec", constants=dict(C, Emit=True), invariants=["EmitOK"], deadlock=False)
+    r = run_tlc("PaxFields", cfg, workers=2, timeout=600)
+    cases = bpbind.parse_emitted(r["out"])
+    if len(cases) < 1000:
+        print("SELF-CHECK-FAILED: PaxFields emitted %d headers" % len(cases))
+        return None
+    DATA = b"payload that is longer than the header's size field admits\n" * 3
+    SHORT = 10
+    XV = {"sx": (b"user.schily", b"raw value \xff\x01"), "lx": (b"user.libarchive", b"decoded value\x00\x02"), "lxsp": (b"user.l p%", b"sp"), "lxpad": (b"user.pad", b"abcd")}
+
+    def rec(k):
+        if k == "uid1":
+            return (b"uid", b"3000001")
+        if k == "uid2":
+            return (b"uid", b"3000002")
+        if k == "gid":
+            return (b"gid", b"4000000000")
+        if k == "mtime":
+            return (b"mtime", b"1234567.5")
+        if k == "size":
+            return (b"size", b"%d" % len(DATA))
+        if k == "path":
+            return (b"path", b"dir/from_pax")
+        if k == "sx":
+            return (b"SCHILY.xattr." + XV[k][0], XV[k][1])
+        if k == "lx":
+            return (b"LIBARCHIVE.xattr." + XV[k][0], base64.b64encode(XV[k][1]).rstrip(b"="))         # libarchive writes no padding
+        if k == "lxsp":
+            return (b"LIBARCHIVE.xattr.user.l%20p%25", base64.b64encode(XV[k][1]))
+        if k == "lxpad":
+            return (b"LIBARCHIVE.xattr." + XV[k][0], base64.b64encode(XV[k][1]))                        # "YWJjZA==" with padding
+        if k == "comment":
+            return (b"comment", b"nothing")
+        return (b"VENDOR.thing", b"value=with=equals")
+
+    def do(i):
+        c = cases[i]
+        arch = tarfmt.pax([rec(k) for k in c["recs"]]) if c["recs"] else b""
+        has_size = "size" in c["recs"]
+        arch += tarfmt.header(b"hdr_name", b"0", size=SHORT if has_size else len(DATA), uid=17, gid=18, mtime=99) + tarfmt.pad(DATA)
+        arch += tarfmt.header(b"second", b"0", size=3, uid=21, gid=22, mtime=77) + tarfmt.pad(b"two") + tarfmt.terminator()
+        out = "%s/pf%d.sqfs" % (work, i)
+        rc, o, e = sh([tools + "/tar2sqfs", "-q", "-f", out], stdin=arch, timeout=30)
+        if rc != 0:
+            return i, "tar2sqfs refuses the archive: %s" % e.decode(errors="replace")[-150:]
+        try:
+            t = sqfsimg.load(out).tree()
+        finally:
+            if os.path.exists(out):
+                os.unlink(out)
+        m = c["m"]
+        name = b"dir/from_pax" if m["name"] == "p1" else b"hdr_name"
+        n = t.get(name)
+        if n is None:
+            return i, "entry %r missing (names %s)" % (name, sorted(t)[:5])
+        want = {"uid": {"h": 17, "u1": 3000001, "u2": 3000002}[m["uid"]], "gid": 18 if m["gid"] == "h" else 4000000000, "mtime": 99 if m["mtime"] == "h" else 1234567}
+        for k, v in want.items():
+            if n[k] != v:
+                return i, "%s is %s, the header sequence says %s" % (k, n[k], v)
+        if n["sha"] != vlib.sha(DATA):
+            return i, "content differs: %d bytes stored, %d archived" % (n["size"], len(DATA))
+        wx = {XV[k][0].replace(b"l p%", b"l p%"): XV[k][1] for k in m["xattrs"]}
+        if n["xattrs"] != wx:
+            return i, "xattrs %s, expected %s" % (n["xattrs"], wx)
+        s2 = t.get(b"second")
+        if s2 is None or (s2["uid"], s2["gid"], s2["mtime"], s2["size"]) != (21, 22, 77, 3) or s2["xattrs"]:
+            return i, "the entry BEHIND the extended header is affected: %s" % (s2 and {k: s2[k] for k in ("uid", "gid", "mtime", "size", "xattrs")})
+        return i, None
+    n, seen = 0, set()
+    with ThreadPoolExecutor(16) as ex:
+        for i, bad in ex.map(do, range(len(cases))):
+            n += 1
+            if bad:
+                key = "pax-record-" + ("size" if "content" in bad or "BEHIND" in bad or "missing" in bad else "xattr" if "xattr" in bad else "field")
+                if key not in seen:
+                    seen.add(key)
+                    rep.violation(key, "file entry behind one PAX header with the records %s: %s" % (cases[i]["recs"], bad), data={"records": cases[i]["recs"]})
+    ev.set("pax_headers_replayed", n)
+    return n
+
+
 def options_stage(tools, work, rep, ev, tier, rng, cfg):
     """spec/TarOpts.tla: archives x tar2sqfs --root-becomes / --no-symlink-retarget, and the fixed image x sqfs2tar
     --subdir / --keep-as-dir / --root-becomes / --no-hard-links; every emitted case on the real converters"""
@@ -565,6 +666,10 @@ def run(tier):
     evaluations += n
     nontrivial.update("writer-matrix-%d" % k for k in range(n))
     # ---- path-transforming options (spec/TarOpts.tla) -----------------------------------------------------------
+    pn = pax_fields_stage(tools, work, rep, ev, tier, cfg)
+    if pn is None:
+        ev.write()
+        return 2
     n = options_stage(tools, work, rep, ev, tier, rng, cfg)
     if n is None:
         ev.write()
